@@ -168,6 +168,14 @@ func (r *Report) OverBudget() bool {
 	return false
 }
 
+// Incomplete records that part of the space was not covered (a cap was hit).
+func (r *Report) Incomplete(note string) {
+	r.mu.Lock()
+	r.Exhaustive = false
+	r.Notes = append(r.Notes, note)
+	r.mu.Unlock()
+}
+
 var journalF *os.File
 var journalN int
 var progressN atomic.Int64
